@@ -1,7 +1,301 @@
-//! C16 — not implemented yet (see DESIGN.md section 4).
-use kit::Run;
-use serde_json::Value;
+//! C16 — Merkle proofs accept exactly the committed leaves.
+//!
+//! S-inp, exhaustive: every leaf count n in 1..=64 (quick) / 1..=300 (thorough), every stored row (every `max_proofs` from 0 to
+//! one more than the tree height, paired exactly as the SDK pairs them: stored row = layers[min(max_proofs, height)],
+//! proof = get_proof_by_index(i, max_proofs)), every leaf index i.  Tree and proofs come from the crate-private
+//! `C2PAMerkleTree` (hook re-export), playback is the public `MerkleMap::check_merkle_tree`.
+//!
+//! Oracle (from the property text):
+//!   + the generated proof verifies for leaf i at location i;
+//!   - the same leaf hash and proof at EVERY other location j in 0..n+2 is rejected;
+//!   - EVERY other leaf's hash (and one value that is no leaf) with the proof of i at location i is rejected;
+//!   - every proof with one used element altered is rejected: each byte of each element flipped (quick: first, middle and last
+//!     byte), each element removed, each pair of different elements swapped, an element duplicated in front, proof dropped
+//!     altogether.  Elements appended after the last one playback reads are not an "altered proof" (nothing they assert is read).
+//! Leaves are distinct 32-byte (sha256) / 48 / 64-byte values, already hashed (hash_leaves = false) as in the BMFF flow.
+//!
+//! Mutants caught (tools/mutant_run.sh C <diff> C16 quick):
+//!   /verif/mutants/C16-odd-node-self-hash.diff  (generate_tree hashes the unpaired node with itself instead of promoting it)
+//!   /verif/mutants/C16-proof-shortfall-accepted.diff (playback treats a missing proof element as "no sibling")
 
-pub fn run(_run: &Run, _replay: Option<&Value>) {
-    kit::ev::machinery("C16: check not implemented");
+use c2pa::{
+    assertions::{MerkleMap, VecByteBuf},
+    verif_hooks::{C2PAMerkleTree, MerkleNode},
+};
+use kit::{par, Run};
+use serde_json::{json, Value};
+use sha2::{Digest, Sha256};
+use std::sync::atomic::{AtomicU64, Ordering};
+
+fn vbb(v: &[Vec<u8>]) -> VecByteBuf {
+    fn conv<B: From<Vec<u8>>>(v: &[Vec<u8>]) -> Vec<B> {
+        v.iter().map(|x| B::from(x.clone())).collect()
+    }
+    VecByteBuf(conv(v))
+}
+
+fn hash_len(alg: &str) -> usize {
+    match alg {
+        "sha384" => 48,
+        "sha512" => 64,
+        _ => 32,
+    }
+}
+
+/// distinct, deterministic leaf values of the digest length of `alg` (independent of the SDK's hashing)
+fn leaf(alg: &str, n: usize, i: usize) -> Vec<u8> {
+    let mut out = vec![];
+    let mut ctr = 0u32;
+    while out.len() < hash_len(alg) {
+        let mut h = Sha256::new();
+        h.update(b"verif-c16-leaf");
+        h.update((n as u64).to_be_bytes());
+        h.update((i as u64).to_be_bytes());
+        h.update(ctr.to_be_bytes());
+        out.extend_from_slice(&h.finalize());
+        ctr += 1;
+    }
+    out.truncate(hash_len(alg));
+    out
+}
+
+struct Cnt {
+    evals: AtomicU64,
+    pos: AtomicU64,
+    neg_index: AtomicU64,
+    neg_leaf: AtomicU64,
+    neg_proof: AtomicU64,
+    rows: AtomicU64,
+    with_proof: AtomicU64,
+}
+
+struct Tree {
+    alg: &'static str,
+    n: usize,
+    leaves: Vec<Vec<u8>>,
+    tree: C2PAMerkleTree,
+}
+
+fn mk_tree(alg: &'static str, n: usize) -> Tree {
+    let leaves: Vec<Vec<u8>> = (0..n).map(|i| leaf(alg, n, i)).collect();
+    let tree = C2PAMerkleTree::from_leaves(leaves.iter().map(|l| MerkleNode(l.clone())).collect(), alg, false);
+    Tree { alg, n, leaves, tree }
+}
+
+fn mk_map(t: &Tree, max_proofs: usize) -> (MerkleMap, usize) {
+    // exactly the SDK's own pairing (assertions/bmff_hash.rs: "save desired Merkle tree row")
+    let row = std::cmp::min(max_proofs, t.tree.layers.len() - 1);
+    let hashes: Vec<Vec<u8>> = t.tree.layers[row].iter().map(|m| m.0.clone()).collect();
+    (
+        MerkleMap {
+            unique_id: 1,
+            local_id: 1,
+            count: t.n,
+            alg: Some(t.alg.to_string()),
+            init_hash: None,
+            hashes: vbb(&hashes),
+            fixed_block_size: None,
+            variable_block_sizes: None,
+        },
+        row,
+    )
+}
+
+/// All checks for one (tree, max_proofs, leaf index). `full_bytes`: flip every byte of every proof element.
+fn check_leaf(run: &Run, cnt: &Cnt, t: &Tree, mm: &MerkleMap, row: usize, max_proofs: usize, i: usize, full_bytes: bool, replay: bool) {
+    let n = t.n;
+    let alg = t.alg;
+    let case = |what: &str, detail: Value| json!({"alg": alg, "n": n, "max_proofs": max_proofs, "leaf": i, "check": what, "detail": detail});
+    let proof = match par::guard(|| t.tree.get_proof_by_index(i, max_proofs)) {
+        Ok(Ok(p)) => p,
+        Ok(Err(e)) => {
+            run.violation(format!("proof-generation error alg={alg}"), format!("n={n} max_proofs={max_proofs} leaf={i}: {e:?}"), case("generate", json!(null)));
+            return;
+        }
+        Err(p) => {
+            run.violation(format!("proof-generation panic alg={alg}"), format!("n={n} max_proofs={max_proofs} leaf={i}: {p}"), case("generate", json!(null)));
+            return;
+        }
+    };
+    // the SDK stores "no proof" as None
+    let as_opt = |p: &[Vec<u8>]| if p.is_empty() { None } else { Some(vbb(p)) };
+    let verify = |hash: &[u8], loc: usize, p: &Option<VecByteBuf>| -> Result<bool, String> { par::guard(|| mm.check_merkle_tree(alg, hash, loc, p)) };
+    let mut local = 0u64;
+    let mut judge = |class: &AtomicU64, expect: bool, got: Result<bool, String>, what: &str, key_tail: String, detail: Value| {
+        local += 1;
+        class.fetch_add(1, Ordering::Relaxed);
+        if replay {
+            println!("  {what} {detail}: expect {expect}, got {got:?}");
+        }
+        match got {
+            Ok(g) if g == expect => {}
+            Ok(g) => run.violation(
+                format!("{} {what} alg={alg} {key_tail}", if expect { "rejected-genuine" } else { "accepted-forgery" }),
+                format!("n={n} stored row {row} (max_proofs={max_proofs}) leaf {i}: {what} {detail} verified={g}, expected {expect}"),
+                case(what, detail),
+            ),
+            Err(p) => run.violation(format!("panic {what} alg={alg}"), format!("n={n} max_proofs={max_proofs} leaf {i}: {what} {detail}: {p}"), case(what, detail)),
+        }
+    };
+    let p_opt = as_opt(&proof);
+    let tail = format!("row={}", if row == 0 { "leaves" } else if row == t.tree.layers.len() - 1 { "root" } else { "inner" });
+
+    // + genuine
+    judge(&cnt.pos, true, verify(&t.leaves[i], i, &p_opt), "genuine", tail.clone(), json!(null));
+    if !proof.is_empty() {
+        cnt.with_proof.fetch_add(1, Ordering::Relaxed);
+    }
+    // - every other location
+    for j in 0..n + 2 {
+        if j != i {
+            judge(&cnt.neg_index, false, verify(&t.leaves[i], j, &p_opt), "other-index", tail.clone(), json!({"location": j}));
+        }
+    }
+    // - every other leaf value, and a value that is no leaf at all
+    for k in 0..n {
+        if k != i {
+            judge(&cnt.neg_leaf, false, verify(&t.leaves[k], i, &p_opt), "other-leaf", tail.clone(), json!({"leaf_value_of": k}));
+        }
+    }
+    let alien = leaf(alg, n + 1000, i);
+    judge(&cnt.neg_leaf, false, verify(&alien, i, &p_opt), "other-leaf", tail.clone(), json!({"leaf_value_of": "alien"}));
+    let mut flipped = t.leaves[i].clone();
+    flipped[0] ^= 1;
+    judge(&cnt.neg_leaf, false, verify(&flipped, i, &p_opt), "other-leaf", tail.clone(), json!({"leaf_value_of": "own, first bit flipped"}));
+
+    // - altered proofs
+    if !proof.is_empty() {
+        let hl = proof[0].len();
+        let positions: Vec<usize> = if full_bytes { (0..hl).collect() } else { vec![0, hl / 2, hl - 1] };
+        for e in 0..proof.len() {
+            for &b in &positions {
+                let mut p = proof.clone();
+                p[e][b] ^= 0x01;
+                judge(&cnt.neg_proof, false, verify(&t.leaves[i], i, &Some(vbb(&p))), "proof-byte-flipped", tail.clone(), json!({"element": e, "byte": b}));
+            }
+            let mut p = proof.clone();
+            p.remove(e);
+            judge(&cnt.neg_proof, false, verify(&t.leaves[i], i, &as_opt(&p)), "proof-element-removed", tail.clone(), json!({"element": e}));
+            if !p.is_empty() {
+                // also when the caller passes Some([]) rather than None
+                judge(&cnt.neg_proof, false, verify(&t.leaves[i], i, &Some(vbb(&p))), "proof-element-removed", tail.clone(), json!({"element": e, "as": "Some"}));
+            }
+            for f in e + 1..proof.len() {
+                if proof[e] != proof[f] {
+                    let mut p = proof.clone();
+                    p.swap(e, f);
+                    judge(&cnt.neg_proof, false, verify(&t.leaves[i], i, &Some(vbb(&p))), "proof-elements-swapped", tail.clone(), json!({"elements": [e, f]}));
+                }
+            }
+        }
+        let mut p = proof.clone();
+        p.insert(0, proof[0].clone());
+        // with a single-element proof the duplicate is a trailing element playback never reads
+        if proof.len() > 1 && proof[0] != proof[1] {
+            judge(&cnt.neg_proof, false, verify(&t.leaves[i], i, &Some(vbb(&p))), "proof-element-duplicated-in-front", tail.clone(), json!(null));
+        }
+        judge(&cnt.neg_proof, false, verify(&t.leaves[i], i, &None), "proof-dropped", tail.clone(), json!(null));
+        judge(&cnt.neg_proof, false, verify(&t.leaves[i], i, &Some(vbb(&[]))), "proof-dropped", tail.clone(), json!({"as": "Some([])"}));
+    }
+    cnt.evals.fetch_add(local, Ordering::Relaxed);
+}
+
+pub fn run(run: &Run, replay: Option<&Value>) {
+    run.rule(
+        "for every leaf count n, every max_proofs in 0..=height+1 (stored row and proof paired as the SDK pairs them) and every leaf index: the genuine \
+         proof must verify; every other location, every other leaf value and every single-element alteration of the proof must be rejected. \
+         non-trivial = (n, max_proofs, leaf) triples whose proof is non-empty (playback actually hashes); each triple is enumerated once.",
+    );
+    run.assume("leaves are distinct digest-length values (pre-hashed leaves, as Store/BmffHash pass them); sha256 over the full range, sha384/sha512 over n <= 33");
+    run.assume("elements appended after the last proof element playback reads are not counted as an altered proof");
+    let cnt = Cnt {
+        evals: AtomicU64::new(0),
+        pos: AtomicU64::new(0),
+        neg_index: AtomicU64::new(0),
+        neg_leaf: AtomicU64::new(0),
+        neg_proof: AtomicU64::new(0),
+        rows: AtomicU64::new(0),
+        with_proof: AtomicU64::new(0),
+    };
+
+    if let Some(c) = replay {
+        let alg: &'static str = match c["alg"].as_str() {
+            Some("sha384") => "sha384",
+            Some("sha512") => "sha512",
+            _ => "sha256",
+        };
+        let n = c["n"].as_u64().unwrap_or(1) as usize;
+        let mp = c["max_proofs"].as_u64().unwrap_or(0) as usize;
+        let i = c["leaf"].as_u64().unwrap_or(0) as usize;
+        let t = mk_tree(alg, n);
+        let (mm, row) = mk_map(&t, mp);
+        println!("replay alg={alg} n={n} max_proofs={mp} (stored row {row} of {} layers, {} hashes) leaf={i}: proof = {:?} elements", t.tree.layers.len(), mm.hashes.len(),
+            t.tree.get_proof_by_index(i, mp).map(|p| p.len()));
+        check_leaf(run, &cnt, &t, &mm, row, mp, i, true, true);
+        run.evals(cnt.evals.load(Ordering::Relaxed));
+        return;
+    }
+
+    // determinism: the same tree twice
+    {
+        let a = mk_tree("sha256", 11);
+        let b = mk_tree("sha256", 11);
+        if a.tree.layers.iter().map(|l| l.len()).collect::<Vec<_>>() != b.tree.layers.iter().map(|l| l.len()).collect::<Vec<_>>() || a.tree.get_root() != b.tree.get_root() {
+            kit::ev::machinery("C16: tree construction is not deterministic");
+        }
+        if a.tree.layers[0].iter().map(|m| m.0.clone()).collect::<Vec<_>>() != a.leaves {
+            kit::ev::machinery("C16: layer 0 is not the leaf row the harness handed in");
+        }
+    }
+
+    let nmax = run.tier.pick(64usize, 300usize);
+    let mut jobs: Vec<(&'static str, usize, usize)> = vec![];
+    for n in 1..=nmax {
+        let height = C2PAMerkleTree::to_layout(n).len() - 1;
+        for mp in 0..=height + 1 {
+            jobs.push(("sha256", n, mp));
+        }
+    }
+    for alg in ["sha384", "sha512"] {
+        for n in 1..=33usize {
+            let height = C2PAMerkleTree::to_layout(n).len() - 1;
+            for mp in 0..=height + 1 {
+                jobs.push((alg, n, mp));
+            }
+        }
+    }
+    // big trees first so the tail of the parallel loop is short
+    jobs.sort_by_key(|j| std::cmp::Reverse(j.1));
+    let full_bytes_upto = run.tier.pick(24usize, 64usize);
+    let leaf_cases: u64 = jobs.iter().map(|j| j.1 as u64).sum();
+    run.space(&format!("(alg, n, max_proofs, leaf): sha256 n in 1..={nmax}, sha384/sha512 n in 1..=33, max_proofs in 0..=height+1, every leaf"), leaf_cases, true);
+    par::for_each(&jobs, |(alg, n, mp)| {
+        let t = mk_tree(alg, *n);
+        if t.tree.layers.len() != C2PAMerkleTree::to_layout(*n).len() || t.tree.layers.iter().map(|l| l.len()).collect::<Vec<_>>() != C2PAMerkleTree::to_layout(*n) {
+            run.violation(format!("layout-mismatch alg={alg}"), format!("n={n}: to_layout {:?} vs generated layers {:?}", C2PAMerkleTree::to_layout(*n), t.tree.layers.iter().map(|l| l.len()).collect::<Vec<_>>()), json!({"alg": alg, "n": n, "max_proofs": mp, "leaf": 0}));
+            return;
+        }
+        let (mm, row) = mk_map(&t, *mp);
+        cnt.rows.fetch_add(1, Ordering::Relaxed);
+        for i in 0..*n {
+            check_leaf(run, &cnt, &t, &mm, row, *mp, i, *n <= full_bytes_upto, false);
+        }
+    });
+    run.evals(cnt.evals.load(Ordering::Relaxed));
+    run.nontrivial_n(cnt.with_proof.load(Ordering::Relaxed));
+    run.outcome_n("genuine proof checked", cnt.pos.load(Ordering::Relaxed));
+    run.outcome_n("other location rejected?", cnt.neg_index.load(Ordering::Relaxed));
+    run.outcome_n("other leaf value rejected?", cnt.neg_leaf.load(Ordering::Relaxed));
+    run.outcome_n("altered proof rejected?", cnt.neg_proof.load(Ordering::Relaxed));
+    run.extra("trees_times_rows", json!(cnt.rows.load(Ordering::Relaxed)));
+    run.extra("every_proof_byte_flipped_for_n_upto", json!(full_bytes_upto));
+    for (n, mp, i) in [(5usize, 1usize, 4usize), (7, 3, 6), (64, 2, 63)] {
+        if n <= nmax {
+            let t = mk_tree("sha256", n);
+            let (mm, row) = mk_map(&t, mp);
+            let p = t.tree.get_proof_by_index(i, mp).map(|p| p.len()).unwrap_or(0);
+            run.sample(json!({"n": n, "layout": C2PAMerkleTree::to_layout(n), "max_proofs": mp, "stored_row": row, "stored_hashes": mm.hashes.len(), "leaf": i, "proof_elements": p,
+                "verifies": mm.check_merkle_tree("sha256", &t.leaves[i], i, &(if p == 0 { None } else { Some(vbb(&t.tree.get_proof_by_index(i, mp).unwrap())) }))}));
+        }
+    }
 }
